@@ -223,6 +223,8 @@ class LazyCall:
         return hash((self.callee, *self.args, *self.kwargs))
 
     def __eq__(self, other):
+        if not isinstance(other, type(self)):
+            return False
         return (
             self.callee == other.callee and self.args == other.args and self.kwargs == other.kwargs
         )
